@@ -15,7 +15,19 @@ use mamba::parse::ast::AST;
 use crate::json::{arr, esc};
 use crate::serve::set_thread_seed;
 
-const SRC: &str = "class A\nclass B: A\nclass C: A\nclass D: B, C\nclass U\nclass E1(msg: Str): Exception(msg)\nclass E2(msg: Str): E1(msg)\n";
+const SRC: &str = "class A\nclass B: A\nclass C: A\nclass D: B, C\nclass U\nclass E1(msg: Str): Exception(msg)\nclass E2(msg: Str): E1(msg)\nclass IL: List[Int]\nclass St: IL\n";
+
+/// a non-generic class below an INSTANTIATION of a generic class: (sub, sup, expected)
+const GENERIC_ANCESTORS: &[(&str, &str, bool)] = &[
+    ("IL", "List[Int]", true),
+    ("IL", "Collection[Int]", true),
+    ("St", "IL", true),
+    ("St", "List[Int]", true),
+    ("St", "Collection[Int]", true),
+    ("IL", "List[Str]", false),
+    ("List[Int]", "IL", false),
+    ("IL", "St", false),
+];
 
 #[derive(Clone)]
 struct Ty {
@@ -419,6 +431,17 @@ pub fn run(args: &[String]) {
                     *failed.entry("nominal").or_default() += 1;
                     emit("nominal", format!("{sub} <= {sup}: implementation says {}, ancestor closure says {want}", m.get(i, j)), &mut viol);
                 }
+            }
+        }
+    }
+    // a class is assignable to each of its declared ancestors, also when the ancestor is an instantiation of a generic class
+    let index: HashMap<&str, usize> = u.iter().enumerate().map(|(i, t)| (t.label.as_str(), i)).collect();
+    for (sub, sup, want) in GENERIC_ANCESTORS {
+        if let (Some(&j), Some(&i)) = (index.get(sub), index.get(sup)) {
+            *counts.entry("generic-ancestor").or_default() += 1;
+            if m.get(i, j) != *want {
+                *failed.entry("generic-ancestor").or_default() += 1;
+                emit("generic-ancestor", format!("{sub} <= {sup}: implementation says {}, the declared parents say {want}", m.get(i, j)), &mut viol);
             }
         }
     }
